@@ -1321,7 +1321,16 @@ impl<'t, 'd> Gen<'t, 'd> {
             }
             used.push(i);
             let c = &frame.cols[i];
-            let e = if c.ty == Ty::Int && self.helpers_ok() && self.t.chance(1, 8) {
+            let mut force_desc = false;
+            let e = if c.ty.numeric() && self.helpers_ok() && self.t.chance(1, 16) {
+                if self.wild_prog { self.touch("wild_helpers"); }
+                // a negated key, once or twice (`sort {-(-a)}`, `sort {+(-a)}`): the direction is the
+                // parity of the minus signs
+                // (only the form `-(-a)`: descending by the expression `-a`. A single parenthesised minus is
+                // still read as a direction, which flips where the engine puts NULLs - left open by the book)
+                force_desc = true;
+                Expr::Un(UnOp::Neg, Box::new(Expr::Col(ColRef { idx: i, text })))
+            } else if c.ty == Ty::Int && self.helpers_ok() && self.t.chance(1, 8) {
                 if self.wild_prog { self.touch("wild_helpers"); }
                 // computed key
                 Expr::bin(
@@ -1335,9 +1344,10 @@ impl<'t, 'd> Gen<'t, 'd> {
                 }
                 Expr::Col(ColRef { idx: i, text })
             };
+            let (d0, p0) = (self.t.chance(1, 3), self.t.chance(1, 8));
             keys.push(SortKey {
-                desc: self.t.chance(1, 3),
-                explicit_plus: self.t.chance(1, 8),
+                desc: d0 || force_desc,
+                explicit_plus: p0 && !force_desc,
                 expr: e,
             });
         }
